@@ -59,11 +59,12 @@ def step(args):
     def body(ctx):
         Individual.counter = 0
         S = []
+        designs = args.get('designs') or list(range(n))     # members may share a design vector
         for i in range(n):
-            ind = Individual([float(i)])
+            ind = Individual([float(designs[i]), 0.5])
             ind.costs_signed = common.sym_costs(ctx, 's%d' % i, m, 'bool')
             S.append(ind)
-        x = Individual([99.0])
+        x = Individual([float(args.get('xdesign', 99)), 0.5])
         x.costs_signed = common.sym_costs(ctx, 'x', m, 'bool')
         # representation invariant of the pre-state
         for i in range(n):
@@ -127,7 +128,7 @@ def history(args):
         Individual.counter = 0
         E = []
         for i in range(k):
-            ind = Individual([float(i)])
+            ind = Individual([float(i % 2) if args.get('shared_designs') else float(i), 0.5])
             ind.costs_signed = common.sym_costs(ctx, 'e%d' % i, m, 'bool')
             E.append(ind)
         arch = Archive(dominance=dom)
@@ -213,23 +214,30 @@ def remove(args):
 def configs(tier):
     out = []
 
-    def add_step(n, m, cmp_, split=None):
-        out.append({'name': 'step-n%d-m%d-%s' % (n, m, cmp_), 'task': 'step', 'args': {'n': n, 'm': m, 'cmp': cmp_},
+    def add_step(n, m, cmp_, split=None, designs=None, xdesign=99):
+        tag = '' if designs is None else '-designs' + ''.join(map(str, designs)) + 'x%d' % xdesign
+        out.append({'name': 'step-n%d-m%d-%s%s' % (n, m, cmp_, tag), 'task': 'step',
+                    'args': {'n': n, 'm': m, 'cmp': cmp_, 'designs': designs, 'xdesign': xdesign},
                     'weight': 3 ** n * m, 'split': split, 'engine': {'validate': 40}})
 
-    def add_hist(k, m, cmp_, how='add', perm=False, split=None):
-        out.append({'name': 'hist-k%d-m%d-%s-%s%s' % (k, m, cmp_, how, '-perm' if perm else ''), 'task': 'history',
-                    'args': {'k': k, 'm': m, 'cmp': cmp_, 'how': how, 'perm': perm}, 'weight': 3 ** (k * 2), 'split': split,
+    def add_hist(k, m, cmp_, how='add', perm=False, split=None, shared=False):
+        out.append({'name': 'hist-k%d-m%d-%s-%s%s%s' % (k, m, cmp_, how, '-perm' if perm else '', '-shared-designs' if shared else ''), 'task': 'history',
+                    'args': {'k': k, 'm': m, 'cmp': cmp_, 'how': how, 'perm': perm, 'shared_designs': shared}, 'weight': 3 ** (k * 2), 'split': split,
                     'engine': {'validate': 40}})
 
     for cmp_ in ('pareto', 'eps'):
         for n in (0, 1, 2, 3, 4):
             for m in (1, 2):
                 add_step(n, m, cmp_, split=24 if n >= 4 else None)
+        # members that share a design vector (repeated / noisy evaluations of one design)
+        add_step(2, 2, cmp_, designs=[0, 0])
+        add_step(3, 2, cmp_, designs=[0, 1, 0], xdesign=1)
+        add_step(3, 2, cmp_, designs=[0, 0, 0], xdesign=0)
         add_hist(2, 2, cmp_)
         add_hist(3, 1, cmp_)
         add_hist(3, 2, cmp_, split=32)
     add_hist(3, 2, 'pareto', how='extend', perm=True, split=32)
+    add_hist(3, 2, 'pareto', how='add', shared=True, split=32)
     add_hist(3, 1, 'eps', how='iadd', perm=True)
     add_hist(2, 2, 'pareto', how='append')
     for n in (1, 2, 3, 4):
